@@ -208,7 +208,7 @@ def gen_cases(ctx):
         for edges in all_dags(n):
             cases.append(("exh%d" % n, full_case(mapping_of(n, edges), rng)))
     # seeded sample of the next size(s), in shuffled dict order
-    for n, cnt in ([(5, 250)] if quick else [(6, 2000)]):
+    for n, cnt in ([(5, 150)] if quick else [(6, 2000)]):
         ds = all_dags(n) if n <= 5 else None
         for _ in range(cnt):
             if ds is not None:
@@ -229,10 +229,10 @@ def gen_cases(ctx):
             cases.append(("shape6", c))
     # shuffled dict orders of small DAGs
     small = all_dags(4)
-    for _ in range(100 if quick else 1500):
+    for _ in range(60 if quick else 1500):
         cases.append(("shuf4", full_case(mapping_of(4, rng.choice(small), rng), rng)))
     # random DAGs up to 40 nodes
-    for _ in range(60 if quick else 900):
+    for _ in range(40 if quick else 900):
         n = rng.randint(6, 40)
         p = rng.choice([1.5 / n, 3.0 / n, 0.15, 0.3])
         if n > 25:
@@ -240,7 +240,7 @@ def gen_cases(ctx):
         m = mapping_of(n, random_dag(rng, n, p), rng)
         cases.append(("rand", sampled_case(m, rng, 400)))
     # cyclic graphs: a DAG plus back edges / self loops
-    for _ in range(60 if quick else 800):
+    for _ in range(40 if quick else 800):
         n = rng.randint(1, 8)
         edges = random_dag(rng, n, rng.choice([0.3, 0.6]))
         for _ in range(rng.randint(1, 2)):
@@ -254,14 +254,14 @@ def gen_cases(ctx):
         m = mapping_of(n, edges, rng)
         cases.append(("cyclic", sampled_case(m, rng, 400)))
     # parallel edges (the constructor accepts them)
-    for _ in range(30 if quick else 300):
+    for _ in range(20 if quick else 300):
         n = rng.randint(2, 5)
         edges = random_dag(rng, n, 0.5)
         edges = edges + [e for e in edges if rng.random() < 0.4]
         m = mapping_of(n, edges, rng)
         cases.append(("multi", sampled_case(m, rng, 4000)))
     # non-negative weights including zeros (probability-0 jobs, zero-runtime tasks)
-    for _ in range(40 if quick else 500):
+    for _ in range(25 if quick else 500):
         n = rng.randint(2, 7)
         m = mapping_of(n, random_dag(rng, n, 0.4), rng)
         cases.append(("zero", sampled_case(m, rng, 400, zero=True)))
@@ -324,7 +324,7 @@ def run(ctx):
     payload["cases"] += [w["case"] for w in corpus]
     # the wrappers: positive weights, acyclic, simple graphs only (Task/Job objects)
     wr = [c for k, c in cases if k in ("exh3", "exh4", "samp5", "samp6", "shape6", "rand", "shuf4")]
-    wr = wr[:: max(1, len(wr) // (150 if ctx.tier == "quick" else 1500))]
+    wr = wr[:: max(1, len(wr) // (100 if ctx.tier == "quick" else 1500))]
     payload["wrappers"] = wr
     # Graph.remove (dead code in the simulator: only TaskGraph.clean calls it): correspondence only
     rm = []
@@ -334,7 +334,7 @@ def run(ctx):
         m = mapping_of(max(n, 1), edges, ctx.rng)
         for k in node_order(m):
             rm.append({"map": m, "remove": k})
-    rm = rm[:: max(1, len(rm) // (150 if ctx.tier == "quick" else 2500))]
+    rm = rm[:: max(1, len(rm) // (100 if ctx.tier == "quick" else 2500))]
     payload["remove"] = rm
     impl = core.run_impl("graph.py", payload, timeout=1500)
     obs = impl["obs"][:len(cases)]
